@@ -49,6 +49,8 @@ structure Env where
   tables : Array (Array (Nat × Nat × Nat))
   bpush : Nat
   bpop : Nat
+  fpush : Nat := 0          -- typeFStringBlockPush / Pop: template statement blocks are unwound by break / continue too
+  fpop : Nat := 0
   jmp : Nat
   maxCnt : Nat := 0     -- ParseExprLimit (0 = the generated default, effectively unlimited here)
   custom : Nat → Nat := fun _ => 0   -- registered custom dice parsers: length of the match starting at an offset (0 = no match)
@@ -59,7 +61,7 @@ structure PState where
   cfg : Flags := {}
   flagsStack : List Flags := []
   loopLayer : Nat := 0
-  blockDepth : Int := 0
+  opens : List Bool := []     -- open statement blocks (true) and template statement blocks (false), innermost first
   loopInfo : List Int := []
   codeStack : List Nat := []      -- loopLayer saved by CodePush
   errs : Bool := false
@@ -126,18 +128,19 @@ def commitCustom (env : Env) (s : PState) : PState :=
 def runEff (env : Env) (s : PState) (e : Eff) : PState :=
   match e with
   | .emit op =>
-    let bd := if op == env.bpush then s.blockDepth + 1 else if op == env.bpop then s.blockDepth - 1 else s.blockDepth
-    { s with trace := op :: s.trace, blockDepth := bd }
-  | .loopBegin => { s with loopLayer := s.loopLayer + 1, loopInfo := s.blockDepth :: s.loopInfo }
+    let os := if op == env.bpush then true :: s.opens else if op == env.fpush then false :: s.opens
+              else if op == env.bpop || op == env.fpop then s.opens.tail else s.opens
+    { s with trace := op :: s.trace, opens := os }
+  | .loopBegin => { s with loopLayer := s.loopLayer + 1, loopInfo := (s.opens.length : Int) :: s.loopInfo }
   | .loopEnd => { s with loopLayer := s.loopLayer - 1, loopInfo := s.loopInfo.tail }
   | .codePush => { s with codeStack := s.loopLayer :: s.codeStack, loopLayer := 0 }
   | .codePop => (match s.codeStack with | l :: r => { s with loopLayer := l, codeStack := r } | [] => { s with broken := some "CodePop on empty stack" })
   | .breakCont =>
     if s.loopLayer == 0 then { s with errs := true }
     else
-      let d := (s.blockDepth - s.loopInfo.headD 0).toNat
-      -- the unwinding block.pop's are written with WriteCode directly: blockDepth is not adjusted
-      { s with trace := env.jmp :: ((List.replicate d env.bpop) ++ s.trace) }
+      let d := ((s.opens.length : Int) - s.loopInfo.headD 0).toNat
+      -- the unwinding pops (innermost first, each of its own kind) are written with WriteCode directly: `opens` is not adjusted
+      { s with trace := env.jmp :: ((((s.opens.take d).map fun b => if b then env.bpop else env.fpop).reverse) ++ s.trace) }
   | .flagsPush => { s with flagsStack := s.cfg :: s.flagsStack }
   | .flagsPop => (match s.flagsStack with | f :: r => { s with cfg := f, flagsStack := r } | [] => { s with broken := some "FlagsPop on empty stack" })
   | .setFlag f v => { s with cfg := s.cfg.set f v }
